@@ -18,7 +18,8 @@ Inductive mixup_type := MixNone | MixFeature | MixHidden.
 Inductive ytensor := YIdx (ys : list nat) | YVal (ys : list Q).
 
 (* y_mixedup: [B, num_classes] for num_classes > 1, [B] for num_classes = 1 *)
-Inductive ymixed := YMClass (rows : list (list Q)) | YMScalar (vals : list Q).
+Inductive ymixed := YMClass (rows : list (list Q)) | YMScalar (vals : list Q)
+                | YMNaN.     (* every entry of y_mixedup is nan (see lam_is_nan); no exception is raised *)
 
 Record draws := { rates : list Q; perm : list nat; unif : list (list Q) }.
 
@@ -115,7 +116,6 @@ Definition mask_and_lam (mt : mixup_type) (mi_scores : option (list Q)) (dr : dr
   | MixFeature =>
       mi <- mi_scores ;;                              (* assert mi_scores is not None *)
       if negb (shape2 b f (unif dr) && (length mi =? f)%nat) then None else
-      if Qle_bool (qsum mi) 0 then None else          (* division by a zero sum: nan, outside the property *)
       let m := draw_mask (rates dr) (unif dr) in
       Some (mask3_feature d m, map (lam_feature mi) m)
   | MixHidden =>
@@ -124,6 +124,17 @@ Definition mask_and_lam (mt : mixup_type) (mi_scores : option (list Q)) (dr : dr
       Some (mask3_hidden f m, rates dr)               (* lam = shuffle_rates *)
   | MixNone =>
       Some (mask3_ones b f d, map (fun _ => 1) (rates dr))   (* ones_like(x), ones_like(shuffle_rates) *)
+  end.
+
+(* mi_scores / mi_scores.sum() with a ZERO sum is nan (0/0) or +-inf in every position; bool * inf = nan for a False
+   mask entry and +inf + -inf = nan, so every lam -- and with it every entry of the mixed target -- is nan.  The
+   code does not raise and the mixed FEATURE tensor is unaffected.  (The property quantifies over non-negative
+   scores with a positive sum; this outcome is modelled so that it is not mistaken for a raise.  A non-zero sum of
+   any sign is plain arithmetic.) *)
+Definition lam_is_nan (mt : mixup_type) (mi_scores : option (list Q)) : bool :=
+  match mt, mi_scores with
+  | MixFeature, Some mi => Qeq_bool (qsum mi) 0
+  | _, _ => false
   end.
 
 Definition feature_mixup (x : list (list (list Z))) (y : ytensor) (num_classes : nat)
@@ -136,8 +147,8 @@ Definition feature_mixup (x : list (list (list Z))) (y : ytensor) (num_classes :
   if negb ((length (rates dr) =? b)%nat && (length (perm dr) =? b)%nat) then None else
   xp <- tgather x (perm dr) ;;                              (* x[shuffled_idx] *)
   ml <- mask_and_lam mt mi_scores dr b f d ;;
-  ym <- mix_targets num_classes y (perm dr) (snd ml) ;;
-  Some (mix_features (fst ml) x xp, ym).
+  ym <- mix_targets num_classes y (perm dr) (snd ml) ;;         (* its raises (one_hot range, shapes) come first *)
+  Some (mix_features (fst ml) x xp, if lam_is_nan mt mi_scores then YMNaN else ym).
 
 (* entry (i, j, k) of a rank-3 tensor / (i, j) of a matrix; None = out of range *)
 Definition ent {A} (x : list (list (list A))) (i j k : nat) : option A :=
@@ -181,6 +192,7 @@ Definition ym_close (tol : Q) (a b : ymixed) : bool :=
   match a, b with
   | YMClass r, YMClass r' => list_eqb (list_eqb (qclose tol)) r r'
   | YMScalar v, YMScalar v' => list_eqb (qclose tol) v v'
+  | YMNaN, YMNaN => true
   | _, _ => false
   end.
 (* the implementation's output (x as integers, y as exact rationals of the float32 values) against the model run
